@@ -598,9 +598,14 @@ def apply_keychan(kc, outlines, items, frames_meta, taplog):
     if kc.get("upper"):
         text_lines = [" ".join([p[0]] + [x.upper() for x in p[1:]]) if len(p) == 3 else l
                       for l, p in ((l, l.split(" ")) for l in text_lines)]
-    text = (nl.join(text_lines) + (nl if text_lines else "")).encode()
+    final_nl = "" if kc.get("no_final_nl") else nl
+    text = (nl.join(text_lines) + (final_nl if text_lines else "")).encode()
     if mode == "file":
         return text, items
+    if kc.get("file_part"):
+        # the key-log file holds only part of the lines (the DSBs hold all of them)
+        keep = [l for i, l in enumerate(text_lines) if (i % kc["file_part"]) == 0]
+        text = (nl.join(keep) + (final_nl if keep else "")).encode()
     # DSB placement: kc["dsb"] = list of [position in items (0 = before all packets), share index] ;
     # lines are dealt to the shares round-robin unless kc["split"] gives explicit counts
     places = kc.get("dsb", [[0, 0]])
@@ -624,8 +629,11 @@ def apply_keychan(kc, outlines, items, frames_meta, taplog):
     for pos, si in ins:
         if not shares[si]:
             continue
-        t = (nl.join(shares[si]) + nl).encode()
+        t = (nl.join(shares[si]) + final_nl).encode()
         new.insert(min(pos, len(new)), ("dsb", t))
+    for pos, txt in kc.get("extra_dsb", []):
+        # additional secrets blocks holding only comment / blank / unrelated text
+        new.insert(min(pos, len(new)), ("dsb", txt.encode()))
     if mode == "dsb":
         return None, new
     return text, new   # "both"
